@@ -155,27 +155,41 @@ def zipWithIterableOp (seq : Nat → Option γ) : Op α (α × γ) where
   onError := passErr
   onCompleted := passDone
 
-/-- `_map.py: map_indexed_` = `zip_with_iterable(infinite())` then `starmap_indexed(mapper)`,
-and `starmap_indexed(mapper) = map(lambda t: mapper(*t))`. -/
+/-- `_map.py: map_indexed_`: per subscription,
+`source.pipe(zip_with_iterable(infinite()), starmap_indexed(mapper)).subscribe(obv)`, where
+`starmap_indexed(mapper) = map(lambda t: mapper(*t))`; the final `.subscribe(obv)` puts one more
+`AutoDetachObserver` in front of `obv` (`idOp` behind an observer). -/
 def mapIndexedOp (f : α → Nat → Except Err β) : Op α β :=
-  (zipWithIterableOp (fun i => some i)).comp (mapOp (fun t => f t.1 t.2))
+  ((zipWithIterableOp (fun i => some i)).comp (mapOp (fun t => f t.1 t.2))).comp idOp
 
 /-- `_skipwhile.py: skip_while_indexed_` = `map_indexed(indexer) | skip_while(skipper) | map(mapper)`. -/
 def skipWhileIndexedOp (p : α → Nat → Except Err Bool) : Op α α :=
   ((mapIndexedOp (fun x i => .ok (x, i))).comp (skipWhileOp (fun t => p t.1 t.2))).comp
     (mapOp (fun t => .ok t.1))
 
+/-- `_distinct.py: array_index_of_comparer(...) != -1`: the stored keys are compared in order; an
+exception raised by the comparer stops the search. -/
+def findMatch (cmp : κ → κ → Except Err Bool) (k : κ) : List κ → Except Err Bool
+  | [] => .ok false
+  | a :: rest =>
+    match cmp a k with
+    | .error e => .error e
+    | .ok true => .ok true
+    | .ok false => findMatch cmp k rest
+
 /-- `_distinct.py: distinct_`; state `hashset.set` (a list searched with the comparer).
-`key = none` is `key_mapper=None`.  The comparer is total here: a raising comparer is C09's subject. -/
-def distinctOp (key : α → Except Err κ) (cmp : κ → κ → Bool) : Op α α where
+`key = pure` is `key_mapper=None`.  Key mapper and comparer may raise (→ `on_error`). -/
+def distinctOp (key : α → Except Err κ) (cmp : κ → κ → Except Err Bool) : Op α α where
   σ := List κ
   init := []
   onNext := fun set x =>
     match key x with
     | .error e => emit set [.error e]
     | .ok k =>
-      if set.any (fun a => cmp a k) then emit set []     -- array_index_of_comparer(...) != -1
-      else emit (set ++ [k]) [.next x]
+      match findMatch cmp k set with              -- try: is_new = hashset.push(key)
+      | .error e => emit set [.error e]
+      | .ok true => emit set []
+      | .ok false => emit (set ++ [k]) [.next x]
   onError := passErr
   onCompleted := passDone
 
